@@ -594,6 +594,60 @@ def check_pair(crate, rep, cfg):
         return out
     loop_edges = ctx_eq_edges("ForLoop")
     capt_edges = ctx_eq_edges("Capture")
+    if not loop_edges and not capt_edges:
+        # second idiom: `body_contexts.iter().rev().find(|c| matches!(c, ForLoop | Capture))` then `match` on the result
+        check_break_guard_find(crate, pt, ef, rep)
+    else:
+        check_break_guard_scan(crate, pt, ef, rep, loop_edges, capt_edges)
+    sites = list(find_aggs(pt, "parsing::ast::Node", "Block"))
+    ok = bool(sites)
+    for bb, idx, s in sites:
+        dom = False
+        for sb in sorted(pt.reachable):
+            if pt.term(sb)["k"] != "switch" or not pt.dominates(sb, bb):
+                continue
+            for tgt, fl in ef.facts_for_switch(sb).items():
+                for f in fl:
+                    if f[0] == "call" and f[1].endswith("::any") and f[3] is False and pt.dominates(tgt, bb) and tgt != sb:
+                        dom = True
+        ok = ok and dom
+    rep.add("C07.PAIR", "C07.PAIR:parser:block-context", ok, pt.where(sites[0][0]) if sites else pt.where(0), "Node::Block is only built on the false edge of "
+            "`body_contexts.iter().any(|b| !b.can_contain_blocks())` (never inside a loop)" + ("" if ok else " — VIOLATED"))
+    # VM: blocks pushed in RenderBlock are popped before the `?` on the nested result
+    vm = crate.one("vm::interpreter::VirtualMachine::<'tera>::interpret")
+    tr = Tracer(vm)
+    pushes = [bb for bb, t in find_calls(vm, ["std::vec::Vec::<T, A>::push"]) if rrec.field_of_arg(tr, t["args"][0]) == ".blocks"]
+    pops = {bb for bb, t in find_calls(vm, ["std::vec::Vec::<T, A>::pop"]) if rrec.field_of_arg(tr, t["args"][0]) == ".blocks"}
+    heads = {bb for bb, t in find_calls(vm, ["parsing::instructions::Chunk::get"])}
+    ok = bool(pushes) and bool(pops)
+    for pb in pushes:
+        reach = vm.reach_from(pb, removed_blocks=frozenset(pops))
+        if (reach & heads) or any(vm.term(x)["k"] == "return" for x in reach):
+            ok = False
+    rep.add("C07.PAIR", "C07.PAIR:vm:blocks-push-pop", ok, vm.where(pushes[0]) if pushes else vm.where(0), "after state.blocks.push in RenderBlock neither the next instruction nor a "
+            "return (including the `?` on the nested result) is reached without state.blocks.pop()" + ("" if ok else " — VIOLATED"))
+
+
+def check_iter_dom(crate, rep, cfg):
+    vm = crate.one("vm::interpreter::VirtualMachine::<'tera>::interpret")
+    ef = EdgeFacts(vm, crate)
+    sites = [bb for bb, t in vm.calls() if callee_def(t).endswith("ForLoop::new") or callee_def(t).endswith("ForLoop::new_comprehension")]
+    rep.floor("C07.ITER", "ForLoop::new call sites in the VM [%s]" % cfg, len(sites), 2)
+    for k, cb in enumerate(sites):
+        dom = False
+        for sb in sorted(vm.reachable):
+            if vm.term(sb)["k"] != "switch" or not vm.dominates(sb, cb):
+                continue
+            for tgt, fl in ef.facts_for_switch(sb).items():
+                for f in fl:
+                    if f[0] == "call" and f[1].endswith("can_be_iterated_on") and f[3] is True and vm.dominates(tgt, cb) and tgt != sb:
+                        dom = True
+        rep.add("C07.ITER", "C07.ITER:vm:ForLoop::new#%d" % k, dom, vm.where(cb), "ForLoop::new is dominated by the true edge of can_be_iterated_on() (its expect cannot fire; "
+                "kind tables agree — C17.ITERABLE)" + ("" if dom else " — VIOLATED"))
+
+
+def check_break_guard_scan(crate, pt, ef, rep, loop_edges, capt_edges):
+    """idiom 1: a reverse scan over body_contexts with a found-a-loop flag"""
     # the "found a loop" flag, by shape: a bool local set to false, and set to true only under `ctx == BodyContext::ForLoop`
     in_loop = set()
     for l, ds in pt.defs.items():
@@ -652,48 +706,68 @@ def check_pair(crate, rep, cfg):
     rep.add("C07.PAIR", "C07.PAIR:parser:capture-blocks-break", ok, pt.where(capt_edges[0][0]) if capt_edges else pt.where(0), "the break/continue scan walks the enclosing "
             "contexts innermost-first, and meeting BodyContext::Capture before the loop can only end in the error return (a jump may not cross an EndCapture)"
             + ("" if ok else " — VIOLATED: " + "; ".join(why or ["scan idiom not recognised"])))
-    sites = list(find_aggs(pt, "parsing::ast::Node", "Block"))
-    ok = bool(sites)
-    for bb, idx, s in sites:
-        dom = False
-        for sb in sorted(pt.reachable):
-            if pt.term(sb)["k"] != "switch" or not pt.dominates(sb, bb):
-                continue
-            for tgt, fl in ef.facts_for_switch(sb).items():
-                for f in fl:
-                    if f[0] == "call" and f[1].endswith("::any") and f[3] is False and pt.dominates(tgt, bb) and tgt != sb:
-                        dom = True
-        ok = ok and dom
-    rep.add("C07.PAIR", "C07.PAIR:parser:block-context", ok, pt.where(sites[0][0]) if sites else pt.where(0), "Node::Block is only built on the false edge of "
-            "`body_contexts.iter().any(|b| !b.can_contain_blocks())` (never inside a loop)" + ("" if ok else " — VIOLATED"))
-    # VM: blocks pushed in RenderBlock are popped before the `?` on the nested result
-    vm = crate.one("vm::interpreter::VirtualMachine::<'tera>::interpret")
-    tr = Tracer(vm)
-    pushes = [bb for bb, t in find_calls(vm, ["std::vec::Vec::<T, A>::push"]) if rrec.field_of_arg(tr, t["args"][0]) == ".blocks"]
-    pops = {bb for bb, t in find_calls(vm, ["std::vec::Vec::<T, A>::pop"]) if rrec.field_of_arg(tr, t["args"][0]) == ".blocks"}
-    heads = {bb for bb, t in find_calls(vm, ["parsing::instructions::Chunk::get"])}
-    ok = bool(pushes) and bool(pops)
-    for pb in pushes:
-        reach = vm.reach_from(pb, removed_blocks=frozenset(pops))
-        if (reach & heads) or any(vm.term(x)["k"] == "return" for x in reach):
-            ok = False
-    rep.add("C07.PAIR", "C07.PAIR:vm:blocks-push-pop", ok, vm.where(pushes[0]) if pushes else vm.where(0), "after state.blocks.push in RenderBlock neither the next instruction nor a "
-            "return (including the `?` on the nested result) is reached without state.blocks.pop()" + ("" if ok else " — VIOLATED"))
 
 
-def check_iter_dom(crate, rep, cfg):
-    vm = crate.one("vm::interpreter::VirtualMachine::<'tera>::interpret")
-    ef = EdgeFacts(vm, crate)
-    sites = [bb for bb, t in vm.calls() if callee_def(t).endswith("ForLoop::new") or callee_def(t).endswith("ForLoop::new_comprehension")]
-    rep.floor("C07.ITER", "ForLoop::new call sites in the VM [%s]" % cfg, len(sites), 2)
-    for k, cb in enumerate(sites):
-        dom = False
-        for sb in sorted(vm.reachable):
-            if vm.term(sb)["k"] != "switch" or not vm.dominates(sb, cb):
-                continue
-            for tgt, fl in ef.facts_for_switch(sb).items():
-                for f in fl:
-                    if f[0] == "call" and f[1].endswith("can_be_iterated_on") and f[3] is True and vm.dominates(tgt, cb) and tgt != sb:
-                        dom = True
-        rep.add("C07.ITER", "C07.ITER:vm:ForLoop::new#%d" % k, dom, vm.where(cb), "ForLoop::new is dominated by the true edge of can_be_iterated_on() (its expect cannot fire; "
-                "kind tables agree — C17.ITERABLE)" + ("" if dom else " — VIOLATED"))
+def closure_true_set(crate, cb, adt_suffix):
+    """variants of the enum for which a `|x| matches!(x, A | B)` closure returns true (None if the shape is not that)"""
+    ef = EdgeFacts(cb, crate)
+    true_set, seen = set(), False
+    for sb in sorted(cb.reachable):
+        if cb.term(sb)["k"] != "switch":
+            continue
+        for tgt, fl in ef.facts_for_switch(sb).items():
+            for f in fl:
+                if f[0] == "variant" and f[1].endswith(adt_suffix) and f[4]:
+                    seen = True
+                    vals = set()
+                    for bb, idx, st in cb.stmts(sorted(x for x in cb.reach_from(tgt) if cb.dominates(tgt, x))):
+                        if idx != "t" and st.get("k") == "assign" and st["pl"]["l"] == 0 and st["rv"]["k"] == "use" and st["rv"]["op"]["k"] == "const":
+                            vals.add(str(st["rv"]["op"].get("v")))
+                    if vals == {"1"}:
+                        true_set |= set(f[3])
+    return true_set if seen else None
+
+
+def check_break_guard_find(crate, pt, ef, rep):
+    """idiom 2: the innermost context among {ForLoop, Capture} is found with a reverse find(), and Break/Continue are built only when it
+    is a ForLoop"""
+    tr = Tracer(pt)
+    finds = []
+    for bb, t in pt.calls():
+        cd = callee_def(t)
+        if cd.endswith("Iterator::find") or cd.endswith("::rfind") or cd.endswith("DoubleEndedIterator::rfind"):
+            a0 = t["atys"][0] if t["atys"] else ""
+            if "BodyContext" in a0:
+                rev = ("Rev<" in a0) != cd.endswith("rfind")      # rev().find(..) or rfind(..) — not both, not neither
+                cl = [st["rv"]["def"] for b2, i2, st in pt.stmts() if i2 != "t" and st.get("k") == "assign" and st["rv"]["k"] == "agg" and st["rv"].get("ak") == "closure"
+                      and any(l.kind == "agg" and l.detail[-2:] == (b2, i2) for l in tr.operand(t["args"][1]))]
+                finds.append((bb, rev, cl))
+    jump_blocks = {bb for v in ("Break", "Continue") for bb, idx, s in find_aggs(pt, "parsing::ast::Node", v)}
+    ok = len(finds) == 1 and bool(jump_blocks)
+    why = "context search not recognised (%d find calls over BodyContext)" % len(finds)
+    if ok:
+        fb, rev, cl = finds[0]
+        ts = closure_true_set(crate, crate.bodies[cl[0]], "BodyContext") if len(cl) == 1 and cl[0] in crate.bodies else None
+        ok = rev and ts is not None and {"ForLoop", "Capture"} <= ts
+        why = "the search is not innermost-first or does not stop at both ForLoop and Capture (stops at %s)" % sorted(ts or [])
+        if ok:
+            # Break/Continue only under `found == Some(ForLoop)`: dominated by a ForLoop-only variant edge on a value derived from the find result
+            good = set()
+            for sb in sorted(pt.reachable):
+                if pt.term(sb)["k"] != "switch":
+                    continue
+                for tgt, fl in ef.facts_for_switch(sb).items():
+                    for f in fl:
+                        if f[0] == "variant" and f[1].endswith("BodyContext") and f[4] and set(f[3]) == {"ForLoop"}:
+                            d = ef.single_def(pt.term(sb)["op"]["pl"]["l"])
+                            src = tr.place(d[3]["pl"]) if d and d[3]["k"] == "discr" else set()
+                            if src and all(l.kind == "call" and l.detail[2] == fb for l in src):
+                                good |= {x for x in pt.reach_from(tgt) if pt.dominates(tgt, x)}
+            ok = jump_blocks <= good
+            why = "a Break/Continue node is built outside the `innermost == Some(ForLoop)` edge"
+    for v in ("Break", "Continue"):
+        rep.add("C07.PAIR", "C07.PAIR:parser:%s-in-loop" % v, ok, pt.where(min(jump_blocks)) if jump_blocks else pt.where(0), "Node::%s is only built when the innermost "
+                "enclosing context among {ForLoop, Capture}, found by a reverse search, is a ForLoop" % v + ("" if ok else " — VIOLATED: " + why))
+    rep.add("C07.PAIR", "C07.PAIR:parser:capture-blocks-break", ok, pt.where(finds[0][0]) if finds else pt.where(0), "the break/continue search walks the enclosing contexts "
+            "innermost-first and stops at a Capture as well as at a ForLoop, so a capture met before the loop ends in the error return (a jump may not cross an EndCapture)"
+            + ("" if ok else " — VIOLATED: " + why))
